@@ -54,7 +54,22 @@ pub uninterp spec fn snake(s: Seq<char>) -> Seq<char>;
 pub uninterp spec fn camel(s: Seq<char>) -> Seq<char>;
 // std (A-std)
 pub uninterp spec fn lowercase(s: Seq<char>) -> Seq<char>;
-pub uninterp spec fn trimmed(s: Seq<char>) -> Seq<char>;   // str::trim
+// str::trim / contains(char) / splitn(2, char) / split_whitespace().count() over the sequence of chars (A-std)
+pub uninterp spec fn is_ws(c: char) -> bool;                 // char::is_whitespace (Unicode White_Space)
+pub broadcast axiom fn axiom_colon_not_ws() ensures #[trigger] is_ws(':') == false;
+pub open spec fn first_idx(s: Seq<char>, c: char) -> int decreases s.len()
+{ if s.len() == 0 { 0 } else if s[0] == c { 0 } else { 1 + first_idx(s.skip(1), c) } }
+pub open spec fn contains_c(s: Seq<char>, c: char) -> bool { first_idx(s, c) < s.len() }
+pub open spec fn trim_start(s: Seq<char>) -> Seq<char> decreases s.len()
+{ if s.len() > 0 && is_ws(s[0]) { trim_start(s.skip(1)) } else { s } }
+pub open spec fn trim_end(s: Seq<char>) -> Seq<char> decreases s.len()
+{ if s.len() > 0 && is_ws(s.last()) { trim_end(s.drop_last()) } else { s } }
+pub open spec fn trimmed(s: Seq<char>) -> Seq<char> { trim_end(trim_start(s)) }
+pub open spec fn is_start(s: Seq<char>, i: int) -> bool { 0 <= i < s.len() && !is_ws(s[i]) && (i == 0 || is_ws(s[i - 1])) }
+pub open spec fn starts_upto(s: Seq<char>, n: int) -> nat decreases n
+{ if n <= 0 { 0 } else { starts_upto(s, n - 1) + (if is_start(s, n - 1) { 1nat } else { 0nat }) } }
+pub open spec fn word_count(s: Seq<char>) -> nat { starts_upto(s, s.len() as int) }
+pub open spec fn has_ws(s: Seq<char>) -> bool { exists|i: int| 0 <= i < s.len() && is_ws(#[trigger] s[i]) }
 
 impl Str {
     #[verifier::external_body]
@@ -79,6 +94,13 @@ impl Str {
     pub fn to_lowercase(&self) -> (r: Str) ensures r@ == lowercase(self@) { unimplemented!() }
     #[verifier::external_body]
     pub fn trim(&self) -> (r: &Str) ensures r@ == trimmed(self@) { unimplemented!() }
+    #[verifier::external_body]
+    pub fn contains(&self, c: char) -> (r: bool) ensures r == contains_c(self@, c) { unimplemented!() }
+    // str::splitn(2, c) then collect::<Vec<&str>>(): the text before the first c and everything after it
+    #[verifier::external_body]
+    pub fn splitn(&self, n: usize, c: char) -> (r: VxSplitN<'_>) requires n == 2 ensures r.src() == self@, r.sep() == c { unimplemented!() }
+    #[verifier::external_body]
+    pub fn split_whitespace(&self) -> (r: VxWords) ensures r.src() == self@ { unimplemented!() }
     #[verifier::external_body]
     pub fn starts_with(&self, p: &Str) -> (r: bool) ensures r == (p@.len() <= self@.len() && self@.subrange(0, p@.len() as int) == p@) { self.s.starts_with(&p.s) }
     #[verifier::external_body]
@@ -143,4 +165,22 @@ pub open spec fn opt_str_toks(o: Option<&Str>) -> Seq<Tok> { match o { Some(x) =
 impl<'a> VxOptToTokens for Option<&'a Str> {
     #[verifier::external_body]
     fn vx_to_tokens(&self, t: &mut TokenStream) ensures final(t)@ == old(t)@.add(opt_str_toks(*self)) { unimplemented!() }
+}
+#[verifier::external_body]
+pub struct VxSplitN<'a> { _p: core::marker::PhantomData<&'a ()> }
+impl<'a> VxSplitN<'a> {
+    pub uninterp spec fn src(&self) -> Seq<char>;
+    pub uninterp spec fn sep(&self) -> char;
+    #[verifier::external_body]
+    pub fn collect(self) -> (r: Vec<&'a Str>)
+        ensures contains_c(self.src(), self.sep()) ==> r@.len() == 2 && r@[0]@ == self.src().subrange(0, first_idx(self.src(), self.sep())) && r@[1]@ == self.src().skip(first_idx(self.src(), self.sep()) + 1),
+                !contains_c(self.src(), self.sep()) ==> r@.len() == 1 && r@[0]@ == self.src()
+    { unimplemented!() }
+}
+#[verifier::external_body]
+pub struct VxWords { _p: core::marker::PhantomData<()> }
+impl VxWords {
+    pub uninterp spec fn src(&self) -> Seq<char>;
+    #[verifier::external_body]
+    pub fn count(self) -> (r: usize) ensures r == word_count(self.src()) { unimplemented!() }
 }
